@@ -93,6 +93,15 @@ impl Z80 {
         }
     }
 
+    /// Forgets everything that belongs to the instruction stream executed so far: HALT state,
+    /// interrupt inhibit after EI/DI and a DD/FD prefix waiting for its opcode. Must be used
+    /// when the CPU state is replaced as a whole (e.g. on snapshot loading)
+    pub fn reset_execution_state(&mut self) {
+        self.halted = false;
+        self.skip_interrupt = false;
+        self.active_prefix = Prefix::None;
+    }
+
     /// Pops program counter to the stack. Exposed as a public crate interface to support
     /// 48K SNA loading in `rustzx-core` and fast tape loaders (Perform RET)
     pub fn pop_pc_from_stack(&mut self, bus: &mut impl Z80Bus) {
